@@ -193,7 +193,75 @@ func c08Prop(st *CaseStats, fam int) func(t *rapid.T) {
 		labels := c.LabelList()
 		nt := false
 		queries := ""
-		for q := 0; q < nq; q++ {
+		type entry struct {
+			term  string
+			count uint64
+		}
+		type dictQuery struct {
+			field      string
+			start, end []byte
+			want       []string
+			filtered   int
+			desc       string
+			it         segment.DictionaryIterator
+			got        []entry
+			done       bool
+		}
+		// one Dictionary object per field serving all queries, or a fresh one per query
+		sharedDict := rapid.Bool().Draw(t, "sharedDict")
+		// all iterators opened first and consumed in a drawn interleaving, or one after the other
+		interleave := nq >= 2 && rapid.Bool().Draw(t, "interleave")
+		dicts := map[string]segment.Dictionary{}
+		var qs []*dictQuery
+		fail := func(q *dictQuery, err error) {
+			t.Fatalf("case %s %s\n  queries%s (sharedDict=%v interleave=%v)\n  query%s: %v", sc, c.Desc, queries, sharedDict, interleave, q.desc, err)
+		}
+		open := func(q *dictQuery, a automaton) {
+			err := safely("dictionary iterator", func() error {
+				d := dicts[q.field]
+				if d == nil || !sharedDict {
+					var err error
+					if d, err = c.Seg.Dictionary(q.field); err != nil {
+						return err
+					}
+					dicts[q.field] = d
+				}
+				if a != nil {
+					q.it = d.Iterator(a, q.start, q.end)
+				} else {
+					q.it = d.Iterator(nil, q.start, q.end)
+				}
+				return nil
+			})
+			if err != nil {
+				fail(q, err)
+			}
+		}
+		step := func(q *dictQuery) {
+			err := safely("dictionary iteration", func() error {
+				e, err := q.it.Next()
+				if err != nil {
+					return err
+				}
+				if e == nil {
+					q.done = true
+					// nil stays nil
+					if e, err := q.it.Next(); e != nil || err != nil {
+						return fmt.Errorf("Next after the end returned %v, %v", e, err)
+					}
+					return nil
+				}
+				q.got = append(q.got, entry{e.Term(), e.Count()})
+				if len(q.got) > 10000 {
+					return fmt.Errorf("iterator does not terminate")
+				}
+				return nil
+			})
+			if err != nil {
+				fail(q, err)
+			}
+		}
+		for qi := 0; qi < nq; qi++ {
 			field := rapid.SampledFrom(ProbeFields).Draw(t, "field")
 			if rapid.IntRange(0, 3).Draw(t, "richestField") > 0 {
 				for _, f := range c.Exp.Fields {
@@ -209,68 +277,72 @@ func c08Prop(st *CaseStats, fam int) func(t *rapid.T) {
 			if start != nil && end != nil && bytes.Compare(start, end) > 0 {
 				start, end = end, start
 			}
-			qd := fmt.Sprintf(" [field %q range %q..%q aut %s]", field, start, end, adesc)
-			queries += qd
-			var want []string
-			filtered := 0
+			q := &dictQuery{field: field, start: start, end: end, desc: fmt.Sprintf(" [field %q range %q..%q aut %s]", field, start, end, adesc)}
+			queries += q.desc
 			for _, tm := range live {
 				if (start == nil || bytes.Compare([]byte(tm), start) >= 0) && (end == nil || bytes.Compare([]byte(tm), end) < 0) && autMatches(a, tm) {
-					want = append(want, tm)
+					q.want = append(q.want, tm)
 				} else {
-					filtered++
+					q.filtered++
 				}
 			}
-			type entry struct {
-				term  string
-				count uint64
+			qs = append(qs, q)
+			open(q, a)
+			if !interleave {
+				for !q.done {
+					step(q)
+				}
 			}
-			var got []entry
-			err := safely("dictionary iteration", func() error {
-				d, err := c.Seg.Dictionary(field)
-				if err != nil {
-					return err
-				}
-				var it interface {
-					Next() (interface {
-						Term() string
-						Count() uint64
-					}, error)
-				}
-				_ = it
-				var di = d.Iterator(nil, start, end)
-				if a != nil {
-					di = d.Iterator(a, start, end)
-				}
-				for {
-					e, err := di.Next()
-					if err != nil {
-						return err
-					}
-					if e == nil {
-						break
-					}
-					got = append(got, entry{e.Term(), e.Count()})
-					if len(got) > 10000 {
-						return fmt.Errorf("iterator does not terminate")
-					}
-				}
-				// nil stays nil
-				if e, err := di.Next(); e != nil || err != nil {
-					return fmt.Errorf("Next after the end returned %v, %v", e, err)
-				}
-				return di.Close()
-			})
-			if err != nil {
-				t.Fatalf("case %s %s\n  query%s: %v", sc, c.Desc, qd, err)
+			if start != nil || end != nil {
+				labels = append(labels, "ranged")
 			}
+			if a != nil {
+				labels = append(labels, "automaton")
+			}
+			if len(c.Exp.Post[field]) == 0 {
+				labels = append(labels, "unknown-or-empty-field")
+			}
+		}
+		if interleave {
+			switches := 0
+			lastPick := -1
+			for {
+				var open []int
+				for i, q := range qs {
+					if !q.done {
+						open = append(open, i)
+					}
+				}
+				if len(open) == 0 {
+					break
+				}
+				pick := open[rapid.IntRange(0, len(open)-1).Draw(t, "pick")]
+				if lastPick >= 0 && pick != lastPick && !qs[lastPick].done {
+					switches++
+				}
+				lastPick = pick
+				step(qs[pick])
+			}
+			if switches > 0 {
+				labels = append(labels, "interleaved-dict-iterators")
+				if sharedDict {
+					labels = append(labels, "interleaved-on-one-dictionary")
+				}
+			}
+		}
+		for _, q := range qs {
+			if err := safely("close", q.it.Close); err != nil {
+				fail(q, err)
+			}
+			got, want, field := q.got, q.want, q.field
 			if len(got) != len(want) {
-				t.Fatalf("case %s %s\n  query%s: expected terms %q, got %v", sc, c.Desc, qd, want, got)
+				fail(q, fmt.Errorf("expected terms %q, got %v", want, got))
 			}
 			oneHitSeen, oneHitBeforeGeneral := false, false
 			for i := range want {
 				wc := uint64(len(c.Exp.Post[field][want[i]]))
 				if got[i].term != want[i] || got[i].count != wc {
-					t.Fatalf("case %s %s\n  query%s: entry #%d expected %q count %d, got %q count %d (all: %v)", sc, c.Desc, qd, i, want[i], wc, got[i].term, got[i].count, got)
+					fail(q, fmt.Errorf("entry #%d expected %q count %d, got %q count %d (all: %v)", i, want[i], wc, got[i].term, got[i].count, got))
 				}
 				pl := c.Exp.Post[field][want[i]]
 				if c.Merged && len(pl) == 1 && pl[0].Freq == 1 && len(pl[0].Locs) == 0 {
@@ -282,18 +354,12 @@ func c08Prop(st *CaseStats, fam int) func(t *rapid.T) {
 			if oneHitBeforeGeneral {
 				labels = append(labels, "1-hit-before-general")
 			}
-			if len(want) >= 2 && filtered >= 1 {
+			if len(want) >= 2 && q.filtered >= 1 {
 				nt = true
 			}
-			if start != nil || end != nil {
-				labels = append(labels, "ranged")
-			}
-			if a != nil {
-				labels = append(labels, "automaton")
-			}
-			if len(c.Exp.Post[field]) == 0 {
-				labels = append(labels, "unknown-or-empty-field")
-			}
+		}
+		if sharedDict {
+			labels = append(labels, "shared-dictionary")
 		}
 		// Contains / PostingsList agree with the live set
 		for k := 0; k < 4; k++ {
